@@ -22,6 +22,7 @@ import (
 	"fmt"
 	"io"
 	"net"
+	"runtime"
 	"runtime/debug"
 	"runtime/metrics"
 	"strings"
@@ -471,6 +472,9 @@ func c37Drive(reader string, data []byte, seed uint64, plain bool, faultAt int) 
 			al0 = al // still allocating by the hundred megabytes: slow, not stuck
 			continue
 		}
+		if c37InAllocator() && waited < 600 {
+			continue // inside one huge allocation (the counter only moves when it is done)
+		}
 		break
 	}
 	{
@@ -545,7 +549,7 @@ func c37DriveInner(reader string, data []byte, seed uint64, plain bool, faultAt 
 			select {
 			case r = <-ch:
 			case <-time.After(3 * time.Second):
-				if c37Allocs()-al0 < 256<<20 {
+				if c37Allocs()-al0 < 256<<20 && !c37InAllocator() {
 					break
 				}
 				// not spinning: busy with an allocation of hundreds of megabytes (a length field of
@@ -980,4 +984,17 @@ func init() {
 		Shrink: []string{"muts"},
 		Gen:    c37Gen, Run: c37Run,
 	})
+}
+
+// c37InAllocator reports whether a goroutine that is driving a reader is inside the runtime's
+// allocator right now (a multi-gigabyte make() clears its memory before it returns).
+func c37InAllocator() bool {
+	buf := make([]byte, 1<<20)
+	n := runtime.Stack(buf, true)
+	for _, g := range strings.Split(string(buf[:n]), "\n\n") {
+		if strings.Contains(g, "c37DriveInner") && (strings.Contains(g, "runtime.mallocgc") || strings.Contains(g, "runtime.memclrNoHeapPointers") || strings.Contains(g, "runtime.(*mheap).alloc") || strings.Contains(g, "runtime.makeslice")) {
+			return true
+		}
+	}
+	return false
 }
